@@ -13,9 +13,9 @@ from harness import build, world, clock, spside, xmlmut, readers
 PROPERTY = 'C10'
 LEVEL = 'exploration'
 RULE = ('Hypothesis: request type {AuthnRequest, LogoutRequest, AttributeQuery -> IdP; LogoutRequest -> SP} x binding {Redirect, POST, SOAP} x signed {no, issuer key, foreign key} x '
-        'receiver want_authn_requests_signed x mutation {none, destination foreign / near miss of an own endpoint (suffix, query, case, scheme, prefix) / other own endpoint / absent, IssueInstant at +-(1 day + allowance) +- 2 s and far, missing '
+        'receiver want_authn_requests_signed x Destination {own, foreign, near miss of an own endpoint (suffix, query, case, scheme, prefix), other own endpoint, absent} x IssueInstant offset {0, +-1 h, +-(1 day) +- 2 s, +-10 d, -400 d} (independent of each other) x mutation {none, missing '
         'required attribute, other request type at this entry point, wrong root element, issuer unknown, truncated or garbled base64 / deflate / envelope layer, 1-3 step tree '
-        'mutation script (edit, move, wrap, signature relocation, XSW construction) applied after signing}. Non-trivial = a mutation or a signature requirement is involved; '
+        'mutation script (edit, move, wrap, signature relocation, XSW construction) applied after signing}; plus the enumerated catalogue of XSW constructions (original parked in 7 places x 4 ID modes x 4 signature modes x 2 positions x stripped or not) over a signed request of every type and binding. Non-trivial = a mutation or a signature requirement is involved; '
         'distinct = distinct case.')
 ASSUMPTIONS = ['xmlsec1 stand-in; frozen clock; signature coverage re-checked with the independent predicate of C01 on the request element',
                'want_authn_requests_only_with_valid_cert is not generated (needs CA machinery; DESIGN 3/C10)']
@@ -50,14 +50,17 @@ def receivers(want_signed):
     return _ents[want_signed]
 
 
-MUTS = ['none', 'none', 'dest-foreign', 'dest-near', 'dest-near', 'dest-other-own', 'dest-absent', 'instant', 'missing-attr', 'other-type', 'wrong-root', 'issuer-unknown', 'garble', 'script', 'script', 'edit-after-sign']
+MUTS = ['none', 'none', 'none', 'none', 'missing-attr', 'other-type', 'wrong-root', 'issuer-unknown', 'garble', 'script', 'script', 'edit-after-sign']
+DMODES = ['own', 'own', 'own', 'own', 'foreign', 'near', 'near', 'other-own', 'absent', 'absent']
+OFFSETS = [0, 0, 0, 0, 0, 3600, -3600, -86400 - 2, -86400 + 2, 86400 - 2, 86400 + 2, -10 * 86400, 10 * 86400, -400 * 86400]
+TBS = [('authn', 'redirect'), ('authn', 'post'), ('logout', 'redirect'), ('logout', 'post'), ('logout', 'soap'), ('attrq', 'soap'), ('sp-logout', 'redirect'), ('sp-logout', 'soap')]
 
 
 def case_strategy():
     from hypothesis import strategies as st
-    tb = st.sampled_from([('authn', 'redirect'), ('authn', 'post'), ('logout', 'redirect'), ('logout', 'post'), ('logout', 'soap'), ('attrq', 'soap'), ('sp-logout', 'redirect'), ('sp-logout', 'soap')])
+    tb = st.sampled_from(TBS)
     return st.fixed_dictionaries({'tb': tb.map(list), 'signed': st.sampled_from(['no', 'issuer', 'issuer', 'foreign']), 'want_signed': st.booleans(), 'mut': st.sampled_from(MUTS),
-                                  'offset': st.sampled_from([-86400 - 2, -86400 + 2, 86400 - 2, 86400 + 2, -10 * 86400, 10 * 86400, 0, 3600]),
+                                  'dmode': st.sampled_from(DMODES), 'offset': st.sampled_from(OFFSETS), 'near': st.integers(0, 9),
                                   'attr': st.sampled_from(['ID', 'IssueInstant', 'Version']), 'garble': st.tuples(st.sampled_from(['truncate', 'flip', 'prefix', 'not-b64', 'empty']), st.integers(1, 200)).map(list),
                                   'script': xmlmut.script_strategy(3), 'alg': st.sampled_from(['sha1', 'sha256', 'sha512']),
                                   'edit': st.sampled_from(['ID', 'Destination', 'AssertionConsumerServiceURL', 'Issuer', 'NameID'])})
@@ -80,20 +83,20 @@ def run(case):
     own = ENDPOINTS[(typ, binding)]
     mut = case['mut']
     fields = {'id': 'id-q-1', 'issue_instant': build.ts(NOW), 'destination': own, 'issuer': sender}
-    if mut == 'dest-foreign':
+    dmode = case.get('dmode', 'own')
+    fields['issue_instant'] = build.ts(NOW + case['offset'])
+    if dmode == 'foreign':
         fields['destination'] = 'https://evil.example.net/endpoint'
-    elif mut == 'dest-near':
+    elif dmode == 'near':
         near = [own + '2', own + '-staging', own + '/', own + '?x=1', own + '/../admin', own + '.evil.example.net/collect', own.replace('https://', 'https://evil.example.net/?u=https://'),
                 own.upper(), own.replace('https://', 'http://'), own[:-1]]
-        fields['destination'] = near[abs(case['offset']) % len(near)]
-    elif mut == 'dest-other-own':
+        fields['destination'] = near[case.get('near', 0) % len(near)]
+    elif dmode == 'other-own':
         others = [v for (t, b), v in ENDPOINTS.items() if t == typ and b != binding]
         fields['destination'] = others[0] if others else 'https://idp.verif.example/other'
-    elif mut == 'dest-absent':
+    elif dmode == 'absent':
         fields['destination'] = None
-    elif mut == 'instant':
-        fields['issue_instant'] = build.ts(NOW + case['offset'])
-    elif mut == 'issuer-unknown':
+    if mut == 'issuer-unknown':
         fields['issuer'] = 'https://unknown.example.org/entity'
     rtyp = typ
     if mut == 'other-type':
@@ -116,6 +119,11 @@ def run(case):
     if mut == 'script':
         m, labels = xmlmut.mutate(xml, case['script'])
         xml = m or xml
+    elif mut == 'xsw':
+        m, labels = xmlmut.mutate(xml, [dict(zip('abcdef', case['xsw']), op='xsw')])
+        if not m or not labels:
+            raise RuntimeError('harness: the XSW construction did not apply to a signed %s' % typ)
+        xml = m
     elif mut == 'edit-after-sign':
         e = case['edit']
         if e in ('ID', 'Destination', 'AssertionConsumerServiceURL'):
@@ -160,14 +168,16 @@ def run(case):
         req, err = None, e
     handed = req is not None and getattr(req, 'message', None) is not None
     want = case['want_signed'] and typ != 'sp-logout'
-    pristine = mut in ('none', 'dest-absent') and (case['signed'] in ('no', 'issuer')) and not (want and case['signed'] == 'no')
+    pristine = mut == 'none' and dmode in ('own', 'absent') and abs(case['offset']) <= 86400 - 2 and (case['signed'] in ('no', 'issuer')) and not (want and case['signed'] == 'no')
     if binding == 'soap' and case['signed'] != 'no':
         pristine = False    # the SOAP decoder re-serialises the body; signatures over foreign prefixes do not survive it (transport limitation, see C08 known finding)
-    label = '%s|%s|%s|%s' % (typ, binding, mut if mut != 'script' else 'script:' + '+'.join(sorted(set(l.split('|')[0] for l in labels)) or ['noop']), 'handed' if handed else 'refused')
+    mlabel = mut if mut not in ('script', 'xsw') else mut + ':' + '+'.join(sorted(set(l.split('|')[0] for l in labels)) or ['noop'])
+    label = '%s|%s|%s|dest-%s|%s|%s' % (typ, binding, mlabel, dmode, 'fresh' if abs(case['offset']) < 86400 else 'stale', 'handed' if handed else 'refused')
+    nontrivial = mut != 'none' or dmode != 'own' or case['offset'] != 0 or want or case['signed'] != 'no'
     if not handed:
         if pristine:
             raise Violation('valid-request-refused', '%s over %s (signed=%s, receiver wants signed=%r, %s): refused: %r' % (typ, binding, case['signed'], want, mut, err))
-        return label, mut != 'none' or want or case['signed'] != 'no'
+        return label, nontrivial
     # ---- the request was handed to the application: check every clause on the raw document that was sent
     if mut == 'garble':
         # whatever decodes must still satisfy everything below; recover the document the receiver saw
@@ -213,13 +223,33 @@ def run(case):
         raise Violation('unsigned-accepted', 'receiver wants signed requests, an unsigned %s was handed over' % typ)
     if msg.id != root.getAttribute('ID') or (msg.destination or None) != dest:
         raise Violation('fields-differ-from-document', 'request object (%r, %r) differs from the document element (%r, %r)' % (msg.id, msg.destination, root.getAttribute('ID'), dest))
-    return label, mut != 'none' or want or case['signed'] != 'no'
+    return label, nontrivial
 
 
 def known_match(part, case, v):
     return None
 
 
+def xsw_catalogue(full):
+    """every signature-wrapping construction of harness.xmlmut.xsw over a correctly signed request of every type and binding"""
+    out = []
+    ctx = [(tb, want) for tb in TBS for want in (False, True)]
+    n = 0
+    for place in range(7):
+        for idm in range(4):
+            for sgm in range(4):
+                for pos in (0, 1):
+                    for strip in (0, 1):
+                        n += 1
+                        # quick tier: every construction under 4 of the 16 (type, binding, requirement) contexts, rotating
+                        for k, (tb, want) in enumerate(ctx):
+                            if full or (k + n) % 4 == 0:
+                                out.append({'tb': list(tb), 'signed': 'issuer', 'want_signed': want, 'mut': 'xsw', 'dmode': 'own', 'offset': 0, 'alg': 'sha256',
+                                            'xsw': [0, place, idm, sgm, pos, strip]})
+    return out
+
+
 def parts(tier):
     quick = tier != 'thorough'
-    return [Part('requests', run, strategy=case_strategy, examples=3000 if quick else 80000)]
+    return [Part('xsw-catalogue', run, cases=lambda: xsw_catalogue(not quick), exhaustive=True),
+            Part('requests', run, strategy=case_strategy, examples=4000 if quick else 100000)]
